@@ -13,7 +13,7 @@ LIB = ["inplace_stop_token.cpp", "task.cpp", "async_stack.cpp"]
 class Gen:
     """programs of nesting depth <= max_depth, <= max_awaits leaf awaits (body + cleanup leaves),
     0..3 cleanups per frame, every exit path (fall off the end, co_return, throw, leaf error, leaf
-    done, stop_if_requested), try/catch around awaits"""
+    done, stop_if_requested), try/catch around awaits, co_await schedule(k) rescheduling"""
 
     def __init__(self, rng, max_depth=4, max_awaits=6):
         self.r, self.max_depth, self.max_awaits = rng, max_depth, max_awaits
@@ -43,9 +43,11 @@ class Gen:
                     leaf = self.nleaf
                     self.cleanup.append(leaf)
                 stmts.append(f"(ax {self.ncl} {leaf})")
-            elif k < 0.92:
+            elif k < 0.90:
                 stmts.append("(sir)")
-            elif k < 0.96:
+            elif k < 0.935:
+                stmts.append(f"(rs {r.randint(1, 3)})")
+            elif k < 0.965:
                 stmts.append(f"(ret {r.randint(0, 9)})")
             else:
                 stmts.append(f"(thr {r.randint(1, 9)})")
@@ -89,7 +91,7 @@ class Gen:
         n = self.nleaf + r.randint(0, 3)
         evs = ["start"]
         for _ in range(n):
-            if mode == "man" and r.random() < 0.45:
+            if mode.startswith("man") and r.random() < 0.45:
                 evs.append("run")
             else:
                 evs.append("c?:" + self.outcome(0.7, 0.15))
@@ -100,6 +102,11 @@ class Gen:
         (before start, after start, after each step)"""
         p, specs = self.program()
         mode = "man" if self.r.random() < 0.55 else "inl"
+        k = self.r.random()
+        if k < 0.12:
+            mode += ":u"      # receiver without a stop token
+        elif k < 0.24:
+            mode += ":w"      # receiver with a foreign stop-token type
         base = self.script(mode)
         out = []
         variants = [base] + [base[:k] + ["stop"] + base[k:] for k in range(len(base) + 1)]
@@ -244,6 +251,7 @@ class CoroPart:
             return
         cov["sanitizer_aborts"] = cov.get("sanitizer_aborts", 0) + len(crashes)
         for k, site, err in crashes:
+            site = re.sub(r"-?\d+", "N", site)     # operand values in UBSan messages are not stable
             verdict.add(f"{self.name}: {site}", f"the real library aborted (ASan/UBSan/terminate) on a generated coroutine program: {lines[k]}",
                         dict(stream=self.name, case=lines[k], sanitizer_report=err), found_input=True)
         keep = [i for i, x in enumerate(impl) if x is not None]
